@@ -204,7 +204,7 @@ identifies with `s`/`k`), other prefixes, hex, padding: all rejected with the st
 theorem routed_only_governance_string {σ : Type} (r : Registration) (hr : r ∈ C16Sem.registrations)
     (sv : Service) (hsv : sv ∈ C16Sem.services) (hpkg : sv.pkg = r.service)
     (mm : String × String) (hmm : mm ∈ sv.methods) (hmsg : mm.2 ≠ "")
-    (hkind : protectedAt prog 4 r.impl mm.1 ≠ some .addr)
+    (hkind : protectedAt prog 4 r.impl mm.1 = some .strict ∨ protectedAt prog 4 r.impl mm.1 = some .fold)
     (env : Env) (hgov : lowerAsciiStr env.gov = true) (auth : Str) (W : World σ) (payloadOk : Bool) (s : σ)
     (h1 : auth ≠ env.gov)
     (h2 : protectedAt prog 4 r.impl mm.1 = some .strict ∨ auth ≠ env.gov.map upperC) :
@@ -215,7 +215,9 @@ theorem routed_only_governance_string {σ : Type} (r : Registration) (hr : r ∈
     apply hrej
     simp only [relK, beq_eq_false_iff_ne, ne_eq]
     exact fun h => h1 h.symm
-  | addr => exact absurd hp hkind
+  | addr => rcases hkind with h | h <;> rw [hp] at h <;> cases h
+  | lenient => rcases hkind with h | h <;> rw [hp] at h <;> cases h
+  | evm20 => rcases hkind with h | h <;> rw [hp] at h <;> cases h
   | fold =>
     have hvb : vbDecodes C16Sem.msgInfos mm.2 = true := by
       have h := List.all_eq_true.mp fold_guards_behind_decoding_validate_basic r hr
@@ -247,7 +249,7 @@ checksum, 5→8 bit regrouping, prefix, address length) to the very address byte
 theorem routed_accepts_only_governance_account {σ : Type} (r : Registration) (hr : r ∈ C16Sem.registrations)
     (sv : Service) (hsv : sv ∈ C16Sem.services) (hpkg : sv.pkg = r.service)
     (mm : String × String) (hmm : mm ∈ sv.methods) (hmsg : mm.2 ≠ "")
-    (hkind : protectedAt prog 4 r.impl mm.1 ≠ some .addr)
+    (hkind : protectedAt prog 4 r.impl mm.1 = some .strict ∨ protectedAt prog 4 r.impl mm.1 = some .fold)
     (env : Env) (hgov : lowerAsciiStr env.gov = true) (auth : Str) (W : World σ) (payloadOk : Bool) (s : σ)
     (hacc : routed prog C16Sem.msgInfos env auth W payloadOk r.impl mm.1 mm.2 s ≠ (.err, s)) :
     accAddress env.cfg auth = accAddress env.cfg env.gov := by
@@ -257,6 +259,63 @@ theorem routed_accepts_only_governance_account {σ : Type} (r : Registration) (h
     · rw [h2]; exact accAddress_upper env.cfg env.gov hgov
     · exact absurd (routed_only_governance_string r hr sv hsv hpkg mm hmm hmsg hkind env hgov auth W payloadOk s h1
         (Or.inr h2)) hacc
+
+/-! ### why the guards have to compare STRINGS: what the byte-comparing guard kinds accept (round 4)
+
+The translator reads guards that decode first (`sdk.AccAddressFromBech32`, the lenient `fxtypes.ParseAddress`,
+`common.BytesToAddress` of the decoded bytes) into `.addrEq` / `.decEq`, the model interprets them (`relK`), and the
+obligations `handlers_compare_strings` / `registered_handlers_compare_strings` insist that no fx-core handler uses one.
+These theorems say what would be accepted otherwise — for ALL addresses, paddings and prefixes. -/
+
+/-- a guard that compares `common.BytesToAddress` of the decoded operands accepts EVERY account address whose bytes end
+with the 20 bytes of the governance account -/
+theorem evm20_accepts_suffix (cfg : AddrCfg) (gov a : Str) (pad g : List Nat) (hg : g.length = 20)
+    (hgov : accAddress cfg gov = some g) (ha : accAddress cfg a = some (pad ++ g)) :
+    relK cfg .evm20 gov a = true := by
+  have h0 : evmAddr g = g := by simpa using evmAddr_suffix [] g hg
+  simp [relK, decodeOr, decodeOrEmpty, hgov, ha, evmAddr_suffix pad g hg, h0]
+
+/-- …although it is a different account whenever the padding is not empty -/
+theorem suffix_is_other_account (cfg : AddrCfg) (gov a : Str) (pad g : List Nat) (hp : pad ≠ [])
+    (hgov : accAddress cfg gov = some g) (ha : accAddress cfg a = some (pad ++ g)) :
+    accAddress cfg a ≠ accAddress cfg gov := by
+  rw [hgov, ha]
+  intro h
+  have := congrArg List.length (Option.some.inj h)
+  simp only [List.length_append] at this
+  have : pad.length = 0 := by omega
+  exact hp (List.length_eq_zero_iff.mp this)
+
+/-- the address comparison after `sdk.AccAddressFromBech32` is exact on accounts -/
+theorem addr_guard_exact (cfg : AddrCfg) (gov a : Str) (hgov : (accAddress cfg gov).isSome = true)
+    (hne : accAddress cfg gov ≠ some []) (h : relK cfg .addr gov a = true) : accAddress cfg a = accAddress cfg gov := by
+  simp only [relK, decodeOrEmpty, beq_iff_eq] at h
+  cases hg : accAddress cfg gov with
+  | none => simp [hg] at hgov
+  | some g =>
+    cases ha : accAddress cfg a with
+    | none =>
+      simp only [hg, ha, Option.getD_some, Option.getD_none] at h
+      subst h; exact absurd hg hne
+    | some x => simp only [hg, ha, Option.getD_some] at h; rw [h]
+
+/-- the lenient decoder does not look at the prefix: two bech32 strings with the same data part decode alike whatever
+their human-readable parts are -/
+theorem lenient_ignores_prefix (cfg : AddrCfg) (a b : Str) (h1 h2 : Str) (d : List Nat) (bz : List Nat)
+    (ha : bechDecode a = some (h1, d)) (hb : bechDecode b = some (h2, d)) (hc : convert5to8 d = some bz) :
+    relK cfg .lenient a b = true := by
+  simp [relK, decodeOr, parseAddress, ha, hb, hc]
+
+example : protectedBody [] (fun _ _ => none)
+    [.nop "", .rejectIf (.not (.decodes .acc .reqAuthority)), .rejectIf (.not (.decEq .evm20 .reqAuthority .keeperAuthority)),
+      .work 3 ""] = some .evm20 := by decide
+example : relK { pref := strOf "cosmos", minLen := 1, maxLen := 255 } .evm20
+    (strOf "cosmos10d07y265gmmuvt4z0w9aw880jnsr700j6zn9kn")
+    (strOf "cosmos1qqqqqqqqqqqqqqqqqqq8khlz9d2yda7x9638hz7hrnhefcpl8heqsp02w9") = true := by decide +kernel
+example : relK { pref := strOf "cosmos", minLen := 1, maxLen := 255 } .addr
+    (strOf "cosmos10d07y265gmmuvt4z0w9aw880jnsr700j6zn9kn")
+    (strOf "cosmos1qqqqqqqqqqqqqqqqqqq8khlz9d2yda7x9638hz7hrnhefcpl8heqsp02w9") = false := by decide +kernel
+example : ∃ pad g : List Nat, g.length = 20 ∧ pad ≠ [] := ⟨[1], List.replicate 20 7, by decide, by decide⟩
 
 /-! ### handler level: the registered Msg servers called directly (no `ValidateBasic` in front) -/
 
@@ -342,9 +401,7 @@ theorem routed_accepts_only_governance_account_all {σ : Type} (r : Registration
   have h3 := List.all_eq_true.mp h2 mm hmm
   have hne : (mm.2 == "") = false := by simpa using hmsg
   simp only [hne, Bool.false_or, Bool.or_eq_true, beq_iff_eq] at h3
-  have hkind : protectedAt prog 4 r.impl mm.1 ≠ some .addr := by
-    rcases h3 with hp | hp <;> rw [hp] <;> simp
-  exact routed_accepts_only_governance_account r hr sv hsv hpkg mm hmm hmsg hkind env hgov auth W payloadOk s hacc
+  exact routed_accepts_only_governance_account r hr sv hsv hpkg mm hmm hmsg h3 env hgov auth W payloadOk s hacc
 
 /-- the crosschain router: without a route for the message's chain the forwarding implementation errors with the state
 untouched, before any per-chain server runs -/
@@ -368,6 +425,7 @@ theorem no_route_rejected {σ : Type} (P : Program) (env : Env) (auth : Str) (W 
         | false => simp [needsRouteBody] at hn
       | rejectIf _ => simp [needsRouteBody] at hn
       | work _ _ => simp [needsRouteBody] at hn
+      | ensureModuleAcc _ _ => simp [needsRouteBody] at hn
 
 /-! ### who has to have signed: transactions, `MsgExec`, proposals -/
 
@@ -551,6 +609,54 @@ theorem dependency_handler_rejects {σ : Type} (i : Impl) (hi : i ∈ C16Dep.imp
   simp only [relK, beq_eq_false_iff_ne, ne_eq]
   exact fun he => h he.symm
 
+/-- obligation over `Gen/C16Dep.lean` (round 4): the listed exception (`MsgExecLegacyContent`) has a STATE-READING guard
+program — after statements that cannot touch state it fetches the module account named "gov" from the x/auth state (and
+nothing else) and rejects when that account's address string differs (`!=`) from the request's authority -/
+theorem dependency_exceptions_state_guarded :
+    C16Dep.impls.all (fun i => !depExceptions.contains i.msg ||
+      (depStateGuarded depProg "gov" i.recv i.method && depEnsured depProg i.recv i.method == ["gov"])) = true := by decide
+
+/-- the exception handler, called directly with an authority string other than the keeper's, returns an error and
+leaves the state untouched — provided the x/auth state holds the governance module account (so fetching it creates
+nothing) under the address the keeper's authority spells (both monitored on the running app; the `dcall` lines for
+`MsgExecLegacyContent` tie the model) -/
+theorem dependency_exception_rejects {σ : Type} (i : Impl) (hi : i ∈ C16Dep.impls) (hx : depExceptions.contains i.msg = true)
+    (env : Env) (auth : Str) (W : World σ) (s : σ) (hst : env.stateModAddr "gov" = env.gov)
+    (hacc : ∀ s', W.ensureAcc "gov" s' = s') (h : auth ≠ env.gov) :
+    exec depProg env auth W 4 i.recv i.method s = (.err, s) := by
+  have hk := List.all_eq_true.mp dependency_exceptions_state_guarded i hi
+  simp only [hx, Bool.not_true, Bool.false_or, Bool.and_eq_true, beq_iff_eq] at hk
+  apply depStateGuarded_sound depProg env auth W "gov" hst h 3 i.recv i.method s hk.1
+  intro n hn s'
+  rw [hk.2] at hn
+  simp only [List.mem_singleton] at hn
+  subst hn
+  exact hacc s'
+
+/-- EVERY dependency handler (SDK / IBC / ethermint), no exception left to the monitors: called directly with an authority
+string other than the governance authority it returns an error and leaves the state untouched -/
+theorem every_dependency_handler_rejects {σ : Type} (i : Impl) (hi : i ∈ C16Dep.impls)
+    (env : Env) (auth : Str) (W : World σ) (s : σ) (hst : env.stateModAddr "gov" = env.gov)
+    (hacc : ∀ s', W.ensureAcc "gov" s' = s') (h : auth ≠ env.gov) :
+    exec depProg env auth W 4 i.recv i.method s = (.err, s) := by
+  cases hx : depExceptions.contains i.msg with
+  | false => exact dependency_handler_rejects i hi hx env auth W s h
+  | true => exact dependency_exception_rejects i hi hx env auth W s hst hacc h
+
+/-- why the hypothesis on the x/auth state is needed: were the stored governance account a different address, the
+state-reading guard would let THAT address through (the guard follows the state, not the keeper's configuration) -/
+theorem state_guard_follows_state :
+    ∃ (env : Env) (auth : Str), auth ≠ env.gov ∧
+      execBody (σ := Nat) [] env auth { work := fun _ _ _ s => .ret .ok (s + 1), routeOk := true, pick := 0, unknown := fun s => (.err, s) }
+        "T" "m" (fun _ _ s => (.err, s))
+        [.ensureModuleAcc "gov" "", .rejectIf (.ne (.moduleAccInState "gov") .reqAuthority), .work 2 ""] 0 = (.ok, 1) := by
+  refine ⟨
+    { cfg := { pref := [], minLen := 0, maxLen := 0 }, gov := [1], modAddr := fun _ => [], field := fun _ => [],
+      otherS := fun _ => [], otherB := fun _ => false, callB := fun _ => false, otherH := fun _ => none,
+      listNonEmpty := fun _ => false, payloadGood := true, clob := fun _ => none, stateModAddr := fun _ => [2] }, [2], ?_, ?_⟩
+  · decide
+  · rfl
+
 /-- the one-sided procedure agrees with the exact one on every fx-core guard: whatever `guardCmp` classifies, `mustReject`
 classifies the same way (so the dependency theorem is not a weaker reading of the same shapes) -/
 theorem must_reject_extends_guard_cmp :
@@ -574,8 +680,10 @@ theorem work_before_guard_unprotected :
     ∃ (W : World Nat) (env : Env) (auth : Str), relK env.cfg .strict env.gov auth = false ∧
       execBody [] env auth W "T" "m" (fun _ _ s => (.err, s))
         [.work 0 "if <payload empty> { delete; return ok }", .rejectIf (.ne .keeperAuthority .reqAuthority)] 0 = (.ok, 1) := by
-  refine ⟨⟨fun _ _ _ s => .ret .ok (s + 1), true, 0, fun s => (.err, s)⟩,
-    ⟨⟨[], 0, 0⟩, [1], fun _ => [], fun _ => [], fun _ => [], fun _ => false, fun _ => false, fun _ => none, fun _ => false, true, fun _ => none⟩, [2], ?_, ?_⟩
+  refine ⟨{ work := fun _ _ _ s => .ret .ok (s + 1), routeOk := true, pick := 0, unknown := fun s => (.err, s) },
+    { cfg := { pref := [], minLen := 0, maxLen := 0 }, gov := [1], modAddr := fun _ => [], field := fun _ => [],
+      otherS := fun _ => [], otherB := fun _ => false, callB := fun _ => false, otherH := fun _ => none,
+      listNonEmpty := fun _ => false, payloadGood := true, clob := fun _ => none }, [2], ?_, ?_⟩
   · decide
   · rfl
 
@@ -778,11 +886,15 @@ example : updateStore ['g'] ['g'] [⟨true, [1], [], [7]⟩] [] = (.ok, [([1], [
 
 example : C16Dep.impls.length ≥ 15 := by decide
 example : C16Dep.impls.any (fun i => depExceptions.contains i.msg) = true := by decide
+example : ∃ env : Env, env.stateModAddr "gov" = env.gov :=
+  ⟨{ cfg := { pref := [], minLen := 0, maxLen := 0 }, gov := [1], modAddr := fun _ => [], field := fun _ => [],
+     otherS := fun _ => [], otherB := fun _ => false, callB := fun _ => false, otherH := fun _ => none,
+     listNonEmpty := fun _ => false, payloadGood := true, clob := fun _ => none, stateModAddr := fun _ => [1] }, rfl⟩
 example : depProtected depProg "github.com/cosmos/cosmos-sdk/x/distribution/keeper.msgServer" "CommunityPoolSpend" = some .strict := by decide
 example : C16Sem.impls.length ≥ 11 := by decide
 example : ∃ gov auth : Str, foldEq gov auth = false := ⟨[103], [48, 120], by decide⟩
 -- the governance module account of a chain with the `cosmos` prefix decodes, and other accounts exist
-example : (accAddress ⟨strOf "cosmos", 1, 255⟩ (strOf "cosmos10d07y265gmmuvt4z0w9aw880jnsr700j6zn9kn")).isSome = true := by decide +kernel
+example : (accAddress { pref := strOf "cosmos", minLen := 1, maxLen := 255 } (strOf "cosmos10d07y265gmmuvt4z0w9aw880jnsr700j6zn9kn")).isSome = true := by decide +kernel
 example : lowerAsciiStr (strOf "cosmos10d07y265gmmuvt4z0w9aw880jnsr700j6zn9kn") = true := by decide
 example : needsRoute prog "x/crosschain/keeper.msgServer" "UpdateParams" = true := by decide
 example : needsRoute prog "x/crosschain/keeper.MsgServer" "UpdateParams" = false := by decide
